@@ -652,6 +652,8 @@ func (m *Model) RunTextSkip(s *Sink, rule string) {
 		return
 	}
 	n, bad := 0, 0
+	preds := map[*ssa.Function]bool{}
+	defer func() { m.whitespacePredCases(s, rule, preds) }()
 	for _, fn := range m.ModFns {
 		if fn.Blocks == nil || shortPkg(fnPkgPath(fn)) != "parser" {
 			continue
@@ -679,6 +681,7 @@ func (m *Model) RunTextSkip(s *Sink, rule string) {
 						if len(fc.Call.Args) >= 1 {
 							if _, p, okP := pathOf(fc.Call.Args[len(fc.Call.Args)-1]); okP && strings.HasSuffix(p, ".curToken.Literal") {
 								white = true
+								preds[fc.Call.StaticCallee()] = true
 							}
 						}
 					}
@@ -699,6 +702,60 @@ func (m *Model) RunTextSkip(s *Sink, rule string) {
 	}
 	if n == 0 {
 		s.OK(rule, "parser|no text token is stepped over", "-", "no nextToken under curTokenIs(HTML) in the parser")
+	}
+}
+
+// whitespacePredCases: the predicate under which the parser steps over text is evaluated for every one-byte string, for
+// the empty string and for a few longer ones: it holds exactly for strings made of blank, tab, line feed and carriage
+// return. (strings.TrimSpace(s) == "" also holds for \v, \f, U+0085, U+00A0: a no-break space between a component and
+// the next block would vanish.)
+func (m *Model) whitespacePredCases(s *Sink, rule string, preds map[*ssa.Function]bool) {
+	var fns []*ssa.Function
+	for f := range preds {
+		fns = append(fns, f)
+	}
+	sort.Slice(fns, func(i, j int) bool { return fnKey(fns[i]) < fnKey(fns[j]) })
+	isWS := func(b byte) bool { return b == ' ' || b == '\t' || b == '\n' || b == '\r' }
+	for _, f := range fns {
+		key := fnKey(f) + "|holds exactly for runs of blank, tab, line feed and carriage return"
+		if f.Blocks == nil || len(f.Params) != 1 || !isStringT(f.Params[0].Type()) {
+			s.Undecided(rule, key, m.Pos(f.Pos()), "the whitespace predicate does not take one string")
+			continue
+		}
+		type tc struct {
+			in   string
+			want bool
+		}
+		var cases []tc
+		for b := 1; b < 256; b++ {
+			cases = append(cases, tc{string([]byte{byte(b)}), isWS(byte(b))})
+		}
+		cases = append(cases, tc{"", true}, tc{" \t\n\r ", true}, tc{" a", false}, tc{"a ", false}, tc{" \u00a0", false}, tc{"\u0085", false}, tc{"\u2028 ", false}, tc{"\n\u3000", false})
+		var wrong []string
+		undecided := ""
+		for _, c := range cases {
+			ip := &Interp{m: m, useGlobals: true}
+			res, ok := ip.Run(f, []any{constant.MakeString(c.in)})
+			k, isK := res.(constant.Value)
+			if !ok || !isK || k.Kind() != constant.Bool || ip.stuck != "" {
+				undecided = fmt.Sprintf("on %q: %s", c.in, ip.stuck)
+				break
+			}
+			if constant.BoolVal(k) != c.want {
+				wrong = append(wrong, fmt.Sprintf("%q", c.in))
+			}
+		}
+		switch {
+		case undecided != "":
+			s.Undecided(rule, key, m.Pos(f.Pos()), "%s could not be evaluated (%s)", fnKey(f), undecided)
+		case len(wrong) > 0:
+			if len(wrong) > 8 {
+				wrong = append(wrong[:8], "...")
+			}
+			s.Violation(rule, key, m.Pos(f.Pos()), "%s, under which the parser steps over a text token, answers differently from \"made of ' ', \\t, \\n, \\r only\" for %s: a text made of such characters between a component use and the next block, directive or slot disappears from the output", fnKey(f), strings.Join(wrong, ", "))
+		default:
+			s.OK(rule, key, m.Pos(f.Pos()), "case evaluation on all 255 one-byte strings, the empty string and 8 longer ones (Unicode spaces included)")
+		}
 	}
 }
 
